@@ -177,6 +177,12 @@ func isRootPositionOnRowTotalRows(position, numLeaves uint64, row, forestRows ui
 	return isRootPositionOnRow(position, numLeaves, row)
 }
 
+// rootIdxOnRow returns the index into the slice of roots (which has the root of the
+// biggest tree first) of the root on the given row.
+func rootIdxOnRow(numLeaves uint64, row uint8) int {
+	return int(numRoots(numLeaves >> (uint64(row) + 1)))
+}
+
 // rootExistsOnRow returns whether or not a root exists on the row with the given num leaves.
 func rootExistsOnRow(numLeaves uint64, h uint8) bool {
 	return (numLeaves>>h)&1 == 1
